@@ -184,12 +184,12 @@ func processSSDPResponse(raw []byte) (name packet.NameEntry, location string, er
 //  MAN: "ssdp:discover"
 //  MX: seconds to delay response
 //  ST: "ssdp:all"
-var mSearchString = append([]byte(`
-M-SEARCH * HTTP/1.1
-HOST: 239.255.255.250:1900
-MAN: "ssdp:discover"
-MX: 1
-ST: "ssdp:all"`), []byte{0x0d, 0x0a, 0x0d, 0x0a}...) // must have 0d0a,0d0a at the end
+var mSearchString = []byte("M-SEARCH * HTTP/1.1\r\n" + // request line first, every line ends with CRLF
+	"HOST: 239.255.255.250:1900\r\n" +
+	"MAN: \"ssdp:discover\"\r\n" +
+	"MX: 1\r\n" +
+	"ST: \"ssdp:all\"\r\n" +
+	"\r\n")
 
 //SendSSDPSearch transmit a multicast SSDP M-SEARCH discovery packet
 //
